@@ -82,12 +82,15 @@ def nest(rng, d):
 
 
 def frag_tree(rng, depth=0):
-    """a random statement list of the fragment of Model/Fragment.v: ('s',) | ('a',) | ('b', [children])"""
+    """a random statement list of the fragment of Model/Fragment.v:
+    ('s',) | ('a',) | ('b', body) | ('r', body) | ('t', body, fin)"""
     out = []
     for _ in range(rng.randrange(0, 5 if depth < 4 else 2)):
-        c = rng.randrange(4)
+        c = rng.randrange(7)
         if c == 0 and depth < 6: out.append(('b', frag_tree(rng, depth + 1)))
-        elif c == 1: out.append(('a',))
+        elif c == 1 and depth < 6: out.append(('r', frag_tree(rng, depth + 1)))
+        elif c == 2 and depth < 6: out.append(('t', frag_tree(rng, depth + 1), frag_tree(rng, depth + 1)))
+        elif c == 3: out.append(('a',))
         else: out.append(('s',))
     return out
 def frag_text(tree, rng, ind=1):
@@ -96,7 +99,10 @@ def frag_text(tree, rng, ind=1):
         pad = rng.choice(["  " * ind, "", " "])
         if t[0] == 's': parts.append(pad + rng.choice(["Foo", "x", "Bar1"]) + rng.choice([";", " ;"]))
         elif t[0] == 'a': parts.append(pad + "x" + rng.choice([" := ", ":="]) + "y;")
-        else: parts.append(pad + "begin" + rng.choice(["\n", " "]) + frag_text(t[1], rng, ind + 1) + rng.choice(["\n", " "]) + pad + "end;")
+        elif t[0] == 'b': parts.append(pad + "begin" + rng.choice(["\n", " "]) + frag_text(t[1], rng, ind + 1) + rng.choice(["\n", " "]) + pad + "end;")
+        elif t[0] == 'r': parts.append(pad + "repeat" + rng.choice(["\n", " "]) + frag_text(t[1], rng, ind + 1) + rng.choice(["\n", " "]) + pad + "until Done;")
+        else: parts.append(pad + "try" + rng.choice(["\n", " "]) + frag_text(t[1], rng, ind + 1) + rng.choice(["\n", " "]) + pad + "finally" + rng.choice(["\n", " "])
+                           + frag_text(t[2], rng, ind + 1) + rng.choice(["\n", " "]) + pad + "end;")
     return rng.choice(["\n", " ", "\n\n"]).join(parts)
 def frag_expected(tree, d, k):
     """the expected lines (level, tokens) and the next token index — a transcription of Fragment.expected"""
@@ -104,8 +110,15 @@ def frag_expected(tree, d, k):
     for t in tree:
         if t[0] == 's': out.append((min(d, 65535), [k, k + 1])); k += 2
         elif t[0] == 'a': out.append((min(d, 65535), [k, k + 1, k + 2, k + 3])); k += 4
+        elif t[0] == 'b':
+            out.append((min(d, 65535), [k])); sub, k = frag_expected(t[1], d + 1, k + 1); out += sub
+            out.append((min(d, 65535), [k, k + 1])); k += 2
+        elif t[0] == 'r':
+            out.append((min(d, 65535), [k])); sub, k = frag_expected(t[1], d + 1, k + 1); out += sub
+            out.append((min(d, 65535), [k, k + 1, k + 2])); k += 3
         else:
             out.append((min(d, 65535), [k])); sub, k = frag_expected(t[1], d + 1, k + 1); out += sub
+            out.append((min(d, 65535), [k])); sub, k = frag_expected(t[2], d + 1, k + 1); out += sub
             out.append((min(d, 65535), [k, k + 1])); k += 2
     return out, k
 def frag_program(rng):
